@@ -17,7 +17,7 @@ FLOATS = [0.5, -0.5, 0.1, 1e-7, 1.5e300, 1.0, -0.0, 0.0, 2.0 ** 53, 1e21, 1e22, 
 STRS = ["", "a", "\"", "\\", "/", "<>&", "\n\t\x01", "é", "漢字", "😀", "0", "5", "-1", "key", "a b", " "]
 BAD_UTF8 = [b"\xff", b"a\xc3", b"\xe2\x82", b"\xed\xa0\x80", b"\xc0\xaf", b"\xf4\x90\x80\x80", b"ok\x80"]
 ECL = {1: "model json_encode<>impl", 2: "model json_decode(default)<>impl", 3: "model json_decode(assoc)<>impl",
-       4: "output tree <> reference encoding of the value", 5: "default-mode decode of the output <> the value",
+       4: "reference reader does not read the output back as the value / wrong refusal", 5: "default-mode decode of the output <> the value",
        6: "assoc-mode decode of the output <> the value"}
 DCL = {1: "model<>impl", 2: "reference reading<>impl"}
 
@@ -138,10 +138,19 @@ def render(rng, t):
     return "{" + sp() + ("," + sp()).join(json.dumps(kk) + sp() + ":" + sp() + render(rng, x) for kk, x in t[1]) + sp() + "}"
 
 
+class NotUTF8(Exception):
+    pass
+
+
 def parse_text(b):
-    """text -> tree with tokens kept; raises Skip when python cannot represent it"""
+    """text -> tree with tokens kept; raises Skip when python cannot represent it, NotUTF8 when the
+    text is not UTF-8 (for implementation output that is a violation: the text denotes nothing)"""
     def const(_):
         raise ValueError("constant")
+    try:
+        b.decode("utf-8")
+    except UnicodeDecodeError:
+        raise NotUTF8()
     try:
         s = b.decode("utf-8")
         x = json.loads(s, object_pairs_hook=lambda p: ("obj", p), parse_int=lambda q: ("int", q),
@@ -370,8 +379,8 @@ def run(ck, binary, run_impl, replay):
             idx.append(i)
         except Skip:
             skipped += 1
-        except ValueError:
-            ck.violation("json:enc:invalid-output", {"part": NAME, "case": c, "impl_out": o, "clause": "output is neither well-formed JSON nor false"})
+        except (ValueError, NotUTF8):
+            ck.violation("json:enc:invalid-output", {"part": NAME, "case": c, "impl_out": o, "clause": "output is neither well-formed UTF-8 JSON nor false"})
     bad = eval_balanced(ck, "jenc", HEADER, terms, "check_jenc")
     for j, cls in sorted(bad.items(), key=lambda kv: len(json.dumps(ecases[idx[kv[0]]]["v"]))):
         c, o = ecases[idx[j]], o_e[idx[j]]
@@ -445,7 +454,7 @@ def run(ck, binary, run_impl, replay):
             try:
                 t = parse_text(bytes.fromhex(c["hex"]))
                 extra.append((c, o, t))
-            except Skip:
+            except (Skip, NotUTF8):
                 skipped += 1
     xterms = ["{| jd_tree := %s; jd_assoc := %s; jd_depth := 512%%Z; jd_obs := %s |}" % (ctree(t), "true" if c["assoc"] else "false", copt(o["val"]))
               for c, o, t in extra]
